@@ -63,7 +63,10 @@ def twins : List (String × Heap) :=
    ("m1-shape-whole-and-element", Heaps.hWholeAndElement),
    ("shared-header-twice", Heaps.hSharedHeader),
    ("fix18-absolute-root-backref", Heaps.hAbsoluteBackref),
-   ("path-item-chain", Heaps.hPathItemChain)]
+   ("path-item-chain", Heaps.hPathItemChain),
+   ("same-name-response-then-request-body", Heaps.hSameName),
+   ("media-type-without-schema", Heaps.hNoSchemaMT),
+   ("path-item-file-chain", Heaps.hPathItemFileChain)]
 
 def twinOf (j : Json) (h : Heap) : Json :=
   match twins.find? (·.1 == getStr j "tag") with
